@@ -28,9 +28,10 @@ TRUSTED = c01.TRUSTED + [
     "predicate) and `_pack_string` = pack_view; that str -> UTF-8 -> str is the identity on valid UTF-8 is assumed of the codec",
     "single-precision floats pass through a Python float: bit patterns are preserved except that a signalling NaN "
     "is quieted (modelled: quiet_groups). This makes the full-strength parsed pass-through FALSE; see C02_parsed_passthrough_refuted",
-    "NOT proved, only checked by the impl-level oracle on every generated datagram: 'the re-encoded datagram decodes to the same message' "
-    "(C02_same_message of the design). Its full-strength form is false (C02_same_message_refuted: a zero-coded body that overshoots the "
-    "decoder's 0x3000 limit in its last chunk is accepted, its canonical re-encoding is refused); no positive theorem is claimed for it",
+    "'the re-encoded datagram decodes to the same message' is proved as C02_same_message under the one residual hypothesis "
+    "recode_within_cap (for zero-coded messages the re-encoded plain body is at most 0x3000 bytes); without it the statement is false "
+    "(C02_same_message_refuted / known finding reencoded-above-zerocode-cap, and C02_ex_cap_window_excluded shows the witness is exactly "
+    "the excluded class). Equality there is on wire values (the parsed message already holds quieted floats)",
 ]
 
 OPS = ["", "h", "b", "hb", "bh", "bb", "hbhb"]
